@@ -174,10 +174,10 @@ func findContent(prefix string, pred func(id string) bool) string {
 }
 
 func checkC05(e *RunEnv) *CheckResult {
-	P := []string{"d/x", "d x", "d-x", "d/s t/u"}
+	P := []string{"d/x", "d x", "d-x", "d/s t/u", "d_y", "dd/z"}
 	spec := &Spec{
 		Seeds: []Seed{{"S0", seedS0()}},
-		Depth: e.pick(5, 7),
+		Depth: e.pick(4, 6),
 		Steps: func(n *Node) []Step {
 			a := n.Abs()
 			var steps []Step
